@@ -1625,6 +1625,44 @@ func (f *fnTrans) typeInv(t Term, typ types.Type) Term {
 	return And(out...)
 }
 
+// mapInvsFor returns the declared entry invariants that apply to maps of type m
+// (a mapinv is declared on a struct field and holds of every map of that field's type).
+func (w *World) mapInvsFor(m *types.Map) [][5]string {
+	var out [][5]string
+	for _, mi := range w.Spec.MapInvs {
+		obj, ok := w.TPkg.Scope().Lookup(mi[0]).(*types.TypeName)
+		if !ok {
+			continue
+		}
+		st, ok := obj.Type().Underlying().(*types.Struct)
+		if !ok {
+			continue
+		}
+		for i := 0; i < st.NumFields(); i++ {
+			if st.Field(i).Name() == mi[1] && types.Identical(st.Field(i).Type().Underlying(), m) {
+				out = append(out, mi)
+			}
+		}
+	}
+	return out
+}
+
+// mapInv instantiates one declared entry invariant at key k and value v.
+func (f *fnTrans) mapInv(mi [5]string, m *types.Map, k, v Term) (Term, bool) {
+	ex, err := ParseSpecExpr(mi[2])
+	if err != nil {
+		f.unsupported("%s: mapinv: %v", mi[4], err)
+		return True, false
+	}
+	env := &Env{w: f.w, names: map[string]TV{"k": {k, m.Key()}, "v": {v, m.Elem()}}, st: f.cur, old: f.cur, lets: map[string]SExpr{}}
+	b, err := env.EvalBool(ex)
+	if err != nil {
+		f.unsupported("%s: mapinv: %v", mi[4], err)
+		return True, false
+	}
+	return b, true
+}
+
 // computeAnchors names the instructions positional lemmas can attach to:
 // call:<callee>#k, store:<T>.<field>#k, mapupdate#k, lookup#k (k-th in block order).
 func (f *fnTrans) computeAnchors() {
